@@ -15,6 +15,7 @@ ASSUMPTIONS = [
 
 
 def run(ctx):
+    from tools.check import MachineryError
     cfg = open(ctx.spec_dir() + '/Vec_RecvSplit.cfg').read()
     if not ctx.quick:
         cfg = cfg.replace('Thorough = FALSE', 'Thorough = TRUE')
@@ -26,6 +27,20 @@ def run(ctx):
     ctx.require_actions('split', 'split:exact-multiple', 'split:short-tail', 'split:zero', 'split:negative',
                         'split:above-length', 'split:equal-length', 'split:empty-datagram',
                         'anc:present', 'anc:missing', 'anc:random', 'split:random')
+    # the receive loop on real loopback sockets (zz_verif_c27_loop_test.go)
+    acts = res.get('actions', {})
+    if acts.get('loop:no-gro') or not acts.get('loop:probe:superpacket-arrives-whole-with-size'):
+        raise MachineryError('C27: this kernel / StdConn does not deliver UDP_GRO superdatagrams on loopback: the receive loop '
+                             'cannot be decided here')
+    ctx.extra['loop'] = {k: v for k, v in res.get('extra', {}).items() if k.startswith('loop_')}
+    if not ctx.violations:
+        if not acts.get('loop:probe:plain-leaves-ancillary-buffer'):
+            raise MachineryError('C27: the kernel did not behave as RecvSplit.tla\'s Kernel operator says (plain datagram: '
+                                 'msg_controllen 0, ancillary buffer untouched)')
+        ctx.require_actions('loop', 'loop:plain:fresh-slot', 'loop:plain:stale-size-below-length',
+                            'loop:plain:stale-size-not-below-length', 'loop:coalesced:fresh-slot',
+                            'loop:coalesced:after-plain', 'loop:coalesced:after-coalesced',
+                            'loop:second-slot:plain:stale-size-below-length', 'loop:second-slot:coalesced:after-plain')
 
 
 META = {
